@@ -87,6 +87,15 @@ pub fn spec(prop: &str) -> Option<PropSpec> {
         "C06" => s("C06", "exploration", 6000, 120000, &["probe.array_merge_checked"], &[],
             "concurrent array edits on 2-4 replicas followed by synchronisation; constraints (1)-(5) of DESIGN 5.6 evaluated on read; non-trivial = at least one array with >= 2 live leaves was checked; distinct = distinct op sequence hash",
             &["probe.array_merge_checked"]),
+        "C09" => s("C09", "fault_enumeration", 1500, 40000, &["enum.crash_points"], &["enum.write_failures"],
+            "per generated history, for (up to 6) commit and meld operations in it: EVERY storage-write boundary is a crash point (snapshot of the durable map, reopened), and EVERY write position fails once, 2x and 3x in a row, plus a full disk, followed by retries; histories are sampled, boundaries and positions are enumerated completely; non-trivial = a history in which at least one target was enumerated; distinct = distinct op sequence hash",
+            &["enum.commit_targets", "enum.meld_targets", "enum.crash_points", "enum.write_failures", "enum.retries_completed", "fault.write_err", "fault.disk_full", "fault.crash_snapshot"]),
+        "C10" => s("C10", "fault_enumeration", 600, 12000, &["enum.damage_cases"], &["probe.damage_open_ok"],
+            "per generated history, on the richest store: for EVERY item bit flips at first/last/8 seeded positions (thorough: every byte), truncation to 0/1/mid/len-1 (thorough: every length), deletion, all pairs of deletions (thorough: triples), and a fixed list of junk-file classes; at rest then open, and in transit then refresh; non-trivial = a history whose damage cases were enumerated and at least one damaged store opened; distinct = distinct op sequence hash",
+            &["enum.damage_cases", "enum.damage_cases_in_transit", "probe.damage_open_ok", "probe.damage_open_err", "probe.damage_value_checked", "fault.damage_bitflip", "fault.damage_truncate", "fault.damage_delete", "fault.damage_junk"]),
+        "C18" => s("C18", "exploration", 1500, 30000, &["enum.config_variants"], &[],
+            "per generated history the same op file is re-executed under >= 4 other hash seeds, 3 listing permutations, 3 parallel-loop orders, a seeded half of the 4x4 cache-capacity grid and one all-varied configuration; semantic digests of all replicas compared after every op; non-trivial = a history whose matrix was executed; distinct = distinct op sequence hash",
+            &["enum.config_variants", "fault.config_hash", "fault.config_listing", "fault.config_parallel-loop", "fault.config_cache", "probe.conflict_at_sync"]),
         _ => return None,
     })
 }
@@ -358,6 +367,7 @@ pub fn cmd_check(args: &[String]) -> i32 {
         "op_mix": opmix,
         "inconclusive_runs": inconclusive,
         "known_finding_runs": known,
+        "enumerated": stats.iter().filter(|(k, _)| k.starts_with("enum.")).map(|(k, v)| (k.clone(), json!(v))).collect::<Map<String, Value>>(),
         "components": components(),
         "exhaustive": false,
     }));
